@@ -361,6 +361,7 @@ def c07_archive_history(rng, integ, kind):
         h = ac.gen_history(rng, 3, structural="variations", variant=(0 if integ == "ias15" else 36) + 18)
         h["init"]["integrator"] = integ
     h["c07kind"] = kind
+    h["c07integ"] = integ      # the integrator under test (grow_first starts with "none" and switches to it)
     return h
 
 
@@ -618,7 +619,7 @@ def _run(c, d, rebound, drv, open_exe, app_exe, W):
                     cls = "append:" + ("complete" if full else "offset_next" if 8 < k < 12 else "old-trailer" if k <= 8 else
                                        "new-trailer" if k >= len(data) - 12 else "END" if k >= len(data) - 28 else "delta")
                 cutclass[cls] = cutclass.get(cls, 0) + 1
-                frow = dict(integrator=hist["init"]["integrator"], kind=hist.get("c07kind"),
+                frow = dict(integrator=hist.get("c07integ") or hist["init"]["integrator"], kind=hist.get("c07kind"),
                             write=("first_snapshot" if fresh else "first_delta" if j == 1 else "later_delta"), cut=cut_class(k, data, fresh))
                 if view[0] != "died":
                     img_tracker.add(dict(frow, entry="create_from_file"))
@@ -699,7 +700,7 @@ def _run(c, d, rebound, drv, open_exe, app_exe, W):
                 name = {1: "with_messages", 2: "init_from_buffer", 3: "simulation_create_from_file", 4: "simulation_copy", 5: "with_messages_reuse_index"}[mode]
                 dims["c_entry:" + name] = dims.get("c_entry:" + name, 0) + 1
                 if er["status"] == 0:
-                    img_tracker.add(dict(integrator=hist["init"]["integrator"], kind=hist.get("c07kind"), entry=name, cut=cut_class(k, data, fresh),
+                    img_tracker.add(dict(integrator=hist.get("c07integ") or hist["init"]["integrator"], kind=hist.get("c07kind"), entry=name, cut=cut_class(k, data, fresh),
                                          write=("first_snapshot" if fresh else "first_delta" if j == 1 else "later_delta")))
                 c.count(("c-entry", name, "first" if fresh else "append"))
                 rep = dict(history=hist, append=j, cut=k, of=len(data), entry=name, result=er)
@@ -737,7 +738,7 @@ def _run(c, d, rebound, drv, open_exe, app_exe, W):
                 st["py_images"] += 1
                 dims["reader:Python_class"] = dims.get("reader:Python_class", 0) + 1
                 if rc == 0:
-                    img_tracker.add(dict(integrator=hist["init"]["integrator"], kind=hist.get("c07kind"), entry="python_class", cut=cut_class(k, data, fresh),
+                    img_tracker.add(dict(integrator=hist.get("c07integ") or hist["init"]["integrator"], kind=hist.get("c07kind"), entry="python_class", cut=cut_class(k, data, fresh),
                                          write=("first_snapshot" if fresh else "first_delta" if j == 1 else "later_delta")))
                 full = (k == len(data))
                 want_n = (0 if fresh else j) + (1 if full else 0)
